@@ -21,7 +21,7 @@ def gen_script(rng, cid, kind=None):
     ocap = max(cap, 1)
     ops = ["case %s" % cid, "fan.new %d" % cap]
     meta = []
-    kind = kind or rng.choice(["plain", "plain", "stuck", "stuck", "stuck-others", "churn", "reuse"])
+    kind = kind or rng.choice(["plain", "plain", "stuck", "stuck", "stuck-others", "churn", "reuse", "slow-resume"])
     labels = []
     alive = []
 
@@ -42,10 +42,30 @@ def gen_script(rng, cid, kind=None):
     def report():
         ops.append("fan.report")
         meta.append(("report",))
-    for _ in range(rng.choice([1, 2, 3]) if kind != "reuse" else rng.choice([3, 3, 4, 5])):
+    for _ in range(rng.choice([1, 2, 3]) if kind not in ("reuse", "slow-resume") else rng.choice([3, 3, 4, 5])):
         spawn()
     ops.append("fan.feed %d" % rng.choice([1, 3, ocap, ocap + 3, 20]))
-    if kind == "reuse":
+    if kind == "slow-resume":
+        # a consumer falls behind (stops reading, its buffer fills, the dispatcher waits for it), other devices are detached
+        # and attached meanwhile, then it reads again: it gets everything since its attachment, in order, nothing missing
+        s_ = rng.choice(alive)
+        ops.append("fan.stop %s" % s_)
+        ops.append("fan.feed %d" % (ocap + 1 + rng.choice([0, 1, 3])))
+        ops.append("fan.sleep 40")
+        for _ in range(1):     # one call waits behind the dispatcher: with two, their order is the Go scheduler's choice
+            # (a detach; where the block of a device attached at such a moment starts is the scheduler's choice as well)
+            others = [l for l in alive if l != s_]
+            if others:
+                despawn(rng.choice(others))
+            ops.append("fan.sleep 20")
+        ops.append("fan.resume %s" % s_)
+        ops.append("fan.sleep 60")
+        for m in list(meta):
+            if m[0] in ("despawn", "spawn"):
+                ops.append("fan.check %s:%s 800" % (m[0], m[1]))
+                meta.append(("check", m[0], m[1]))
+        ops.append("fan.feed %d" % rng.choice([1, 3, 9]))
+    elif kind == "reuse":
         # several devices leave in any order (not last-in-first-out: a middle one, then the newest), then as many or more
         # arrive: every device still attached, and every new one, gets every message from its attachment on
         for _ in range(rng.choice([1, 2])):
@@ -121,7 +141,7 @@ def run(prop, tier, seed, verdict):
     os.makedirs(workdir, exist_ok=True)
     rng = random.Random(seed * 523 + 15)
     n = 192 if tier == "quick" else 3000
-    fixed = ["plain", "stuck", "stuck-others", "churn", "reuse"]
+    fixed = ["plain", "stuck", "stuck-others", "churn", "reuse", "slow-resume"]
     scripts = [gen_script(rng, i, fixed[i] if i < len(fixed) else None) for i in range(n)]
     nstress = 120 if tier == "quick" else 3000
     nrelay = 64 if tier == "quick" else 1500
